@@ -460,6 +460,12 @@ func Sweeps(thorough bool, f func(name string, m ref.Msg, fits bool)) {
 			f(fmt.Sprintf("chain.size=%d@%d", n, pos), ref.Msg{H: BaseHdr, P: ps}, true)
 		}
 	}
+	// a Delete payload that announces 4-octet SPIs and lists none (count = number of SPIs = 0), for every protocol id
+	for _, proto := range []uint8{0, 1, 2, 3, 255} {
+		d := ref.Payload{T: ref.PDelete, B: proto, SSize: 4, NSPI: 0}
+		f(fmt.Sprintf("D.size4-empty=%d", proto), one(d), true)
+		f(fmt.Sprintf("D.size4-empty+=%d", proto), ref.Msg{H: BaseHdr, P: []ref.Payload{{T: ref.PNonce, Data: Pat(4, 1)}, d, {T: ref.PDelete, B: 3, SSize: 4, NSPI: 1, SPIs: []uint32{7}}}}, true)
+	}
 	// chains longer than 64 KiB made of payloads that each fit their 16-bit length field (only the header's Length is
 	// 32 bits wide): totals around 2^16 and 2^17
 	for _, total := range []int{65530, 65531, 65532, 65533, 65534, 65535, 65536, 65537, 65538, 65539, 65540, 65541, 65544, 70000, 98304, 131071, 131072, 131073, 131080} {
